@@ -25,7 +25,8 @@ ParamsOf(c) == Params(ParOf(c.par.a), ParOf(c.par.b), ParOf(c.par.g), ParOf(c.pa
 RatSeq(v) == [j \in 1..Len(v) |-> Frac(v[j][1], v[j][2])]
 StateOf(c, tree) == [p \in 1..2 |-> [inf \in InfoNames(tree, p) |->
                        [r |-> RatSeq(c.state[p][inf].r), s |-> RatSeq(c.state[p][inf].s),
-                        cur |-> RatSeq(c.state[p][inf].cur)]]]
+                        cur |-> RatSeq(c.state[p][inf].cur),
+                        tch |-> \E j \in 1..Len(c.state[p][inf].r) : c.state[p][inf].r[j][1] # 0]]]
 DrawsOf(c, tree) ==
   [c |-> [lab \in DOMAIN c.draws.c |-> <<Frac(c.draws.c[lab][1][1], c.draws.c[lab][1][2]),
                                           Frac(c.draws.c[lab][2][1], c.draws.c[lab][2][2])>>],
